@@ -976,3 +976,212 @@ def m_object_listed_members(spec, rng):
 
 
 MUTATORS += [('object-listed-members', m_object_listed_members)]
+
+
+# ------------------------------------------------------------------------------------------- round 7 additions
+REQUESTED_DECLS = [(u'meta', L.METANS), (u'config', L.CONFIGNS), (u'dc', L.DCNS), (u'style', L.STYLENS), (u'svg', L.SVGNS),
+                   (u'fo', L.FONS), (u'draw', L.DRAWNS), (u'table', L.TABLENS), (u'form', ODF % u'form')]
+LONG_ROOT_KINDS = ('ext-decls-lines', 'ext-decls-blank', 'long-value', 'long-values-quotes', 'indent', 'mixed')
+LONG_ROOT_K = (10, 11, 12, 13, 14, 15, 16)
+
+
+def long_root_padding(kind, target, rng):
+    """text for the root start tag, placed BEFORE the ODF namespace declarations: about `target` characters of
+    well-formed attributes / declarations / white space.  ext-decls-*: extension namespace declarations (one per line, or
+    blank-separated); long-value: one declaration whose namespace name is very long; long-values-quotes: foreign
+    attributes with long values holding '>', the other kind of quote and the words ' xmlns:style='; indent: long runs of white
+    space between a few declarations; mixed: all of these"""
+    out = []; n = 0; size = 0
+    def decl(sep):
+        return u'%sxmlns:ext%d="urn:example:extension:%d:%s"' % (sep, n, n, u'abcdefghij'[:rng.randint(0, 10)])
+    while size < target:
+        k = kind if kind != 'mixed' else rng.choice(LONG_ROOT_KINDS[:-1])
+        left = target - size
+        if k == 'ext-decls-lines':
+            s = decl(rng.choice([u'\n', u'\n  ', u'\n\t', u'\r\n    ']))
+        elif k == 'ext-decls-blank':
+            s = decl(u' ')
+        elif k == 'long-value':
+            s = u' xmlns:ext%d="urn:example:%s"' % (n, u'x' * max(1, min(left, 70000) - 30))
+        elif k == 'long-values-quotes':
+            body = (u"it's > here; xmlns:style= xmlns:meta = <no tag> " * (max(1, min(left, 3000)) // 48 + 1))
+            if rng.random() < 0.5:
+                s = u' ext%d-note="%s"' % (n, body.replace(u'<', u'&lt;'))
+            else:
+                s = u" ext%d-note='%s'" % (n, body.replace(u"'", u'"').replace(u'<', u'&lt;'))
+        else:
+            s = rng.choice([u' ', u'\n', u'\t']) * max(1, min(left, rng.choice([200, 1000, 5000])) - 40) + decl(u' ')
+        out.append(s); size += len(s); n += 1
+    return u''.join(out)
+
+
+def m_long_root_tag(spec, rng, k=None, kind=None, delta=None):
+    """the root start tag of every part is VERY long (about 2^k characters, k = 10..16: 1 KiB .. 64 KiB, a little less / more
+    than 2^k): some hundred or thousand extension namespace declarations, one per line, long attribute values, long
+    indentation - all BEFORE the ODF declarations, which follow at the end of the tag (the nine prefixes the loader asks
+    for are all declared there, used or not).  Same infoset below the root; the root only gains foreign declarations /
+    unqualified attributes."""
+    k = k if k is not None else rng.choice(LONG_ROOT_K)
+    kind = kind or rng.choice(LONG_ROOT_KINDS)
+    def f(n, t, pm):
+        old = prefixes_for(t, pm)
+        d = delta if delta is not None else rng.choice([-400, -60, -1, 0, 1, 60, 400, 3000])
+        pad = long_root_padding(kind, max(64, (1 << k) + d - len(t[2]) - 8), rng)
+        extra = [(p, ns) for p, ns in REQUESTED_DECLS if old.get(ns, p) == p and p not in [old[x] for x in old if x != ns]]
+        return L.serialise(t, old, extra_decls=extra, root_first=pad, seps=[rng.choice([u' ', u'\n', u'\n  '])])
+    return map_parts(spec, f)
+
+
+def m_long_root_tag_64k(spec, rng):
+    return m_long_root_tag(spec, rng, k=16)
+
+
+def m_long_root_tag_8k(spec, rng):
+    return m_long_root_tag(spec, rng, k=rng.choice([12, 13]))
+
+
+def font_name_variants(name):
+    """[(kind, other spelling)] of a font name: spellings that differ from `name` by the case of its letters, by Unicode
+    normalisation, by blanks around / inside it - and the name itself.  style:name is an exact key: each of them but
+    'equal' is ANOTHER font."""
+    import unicodedata
+    def flip_one(s):
+        for i, c in enumerate(s):
+            if c.swapcase() != c and len(c.swapcase()) == 1 and i > 0:
+                return s[:i] + c.swapcase() + s[i + 1:]
+        return s
+    vs = [('case-lower', name.lower()), ('case-upper', name.upper()), ('case-swap', name.swapcase()), ('case-title', name.title()),
+          ('case-one-letter', flip_one(name)), ('case-fold', name.casefold()),
+          ('nfd', unicodedata.normalize('NFD', name)), ('nfc', unicodedata.normalize('NFC', name)),
+          ('nfkc', unicodedata.normalize('NFKC', name)), ('nfkd', unicodedata.normalize('NFKD', name)),
+          ('blank-lead', u' ' + name), ('blank-trail', name + u' '), ('blank-both', u'  ' + name + u' '),
+          ('blank-inner', name.replace(u' ', u'  ')), ('blank-nbsp', name.replace(u' ', u'\u00a0')), ('blank-none', name.replace(u' ', u''))]
+    seen = set([name]); out = []
+    for kd, v in vs:
+        if v not in seen and v:
+            seen.add(v); out.append((kd, v))
+    return out + [('equal', name)]
+
+
+FONT_BASES = [u'Harness Sans', u'DejaVu Sérif', u'dejavu serif', u'Ünïcode Près 3', u'İstanbul Kaşıkçı', u'Straße Groß',
+              u'Ελληνικά Σίγμας', u'Ångström ﬁne', u'Café Monö', u'ǅemal Жук']
+
+
+def _named_font(name, tag):
+    return ('E', L.STYLENS, u'font-face', [(L.STYLENS, u'name', name), (L.SVGNS, u'font-family', u"'%s'" % name.strip()),
+                                          (L.STYLENS, u'font-pitch', u'variable'), (L.STYLENS, u'font-family-generic', tag)], [])
+
+
+def m_fonts_near_names(spec, rng):
+    """content.xml and styles.xml declare fonts whose style:name are NEARLY the same: they differ only by the case of letters
+    (ASCII and not), only by Unicode normalisation, only by blanks around / inside the name - or are equal (same declaration
+    in both parts; sometimes a different one: the class of KF-C05-18).  Each part refers to its own spelling: an automatic
+    text style used by a span (content.xml), a common style (styles.xml).  In the top document and every sub-document."""
+    base = rng.choice(FONT_BASES)
+    vs = font_name_variants(base)
+    near = [v for v in vs if v[0] != 'equal']
+    rng.shuffle(near)
+    # one spelling of every class the name has (case / normalisation / blanks), and up to two more
+    chosen = []
+    for cls in ('case-', 'nf', 'blank-'):
+        hit = [v for v in near if v[0].startswith(cls)]
+        if hit:
+            chosen.append(hit[0])
+    chosen += [v for v in near if v not in chosen][:rng.randint(0, 2)]
+    rng.shuffle(chosen)
+    r = rng.random()
+    equal = []
+    if r < 0.5:
+        equal = [('equal', base, u'swiss')]                  # the same declaration in both parts
+    elif r < 0.65:
+        equal = [('equal', base, u'roman')]                  # another font under the same name (KF-C05-18)
+    swap = rng.random() < 0.5                                # which part has the base spelling
+    first = [_named_font(base, u'swiss')]
+    second = [_named_font(v, u'modern') for _, v in chosen] + [_named_font(v, g) for _, v, g in equal]
+    if rng.random() < 0.3:                                   # both parts declare all near spellings, in different orders
+        first = first + [_named_font(v, u'modern') for _, v in chosen]; rng.shuffle(first)
+    rng.shuffle(second)
+    mine = {u'content.xml': second if swap else first, u'styles.xml': first if swap else second}
+    def edit(part):
+        def f(n, t):
+            fonts = mine[part]
+            if n.count(u'/') >= 2:
+                # (a difference inside a nested object is reported under the signature of the nested object: the clash of
+                # KF-C05-18 is generated in the top document and in first-level objects only)
+                fonts = [_named_font(L.attr(x, L.STYLENS, 'name'), u'swiss') if L.attr(x, L.STYLENS, 'font-family-generic') == u'roman' else x for x in fonts]
+            names = [L.attr(x, L.STYLENS, 'name') for x in fonts]
+            ff = L.kid(t, L.OFFICENS, 'font-face-decls')
+            kids = list(t[4])
+            if ff is None:
+                i = 0
+                while i < len(kids) and not (kids[i][0] == 'E' and kids[i][2] in ('styles', 'automatic-styles', 'body', 'master-styles')):
+                    i += 1
+                kids.insert(i, ('E', L.OFFICENS, u'font-face-decls', [], list(fonts)))
+            else:
+                at_front = rng.random() < 0.5
+                kids = [('E', k[1], k[2], k[3], (list(fonts) + list(k[4])) if at_front else (list(k[4]) + list(fonts))) if k is ff else k for k in kids]
+            users = [('E', L.STYLENS, u'style', [(L.STYLENS, u'name', u'HarnessFont%s%d' % (u'C' if part == u'content.xml' else u'S', i)), (L.STYLENS, u'family', u'text')],
+                      [('E', L.STYLENS, u'text-properties', [(L.STYLENS, u'font-name', nm)], [])]) for i, nm in enumerate(names)]
+            if part == u'styles.xml':
+                st = [k for k in kids if k[0] == 'E' and (k[1], k[2]) == (L.OFFICENS, 'styles')]
+                if st:
+                    kids = [('E', k[1], k[2], k[3], list(k[4]) + users) if k is st[0] else k for k in kids]
+            else:
+                au = [k for k in kids if k[0] == 'E' and (k[1], k[2]) == (L.OFFICENS, 'automatic-styles')]
+                body = [k for k in kids if k[0] == 'E' and (k[1], k[2]) == (L.OFFICENS, 'body')]
+                if au and body:
+                    done = {'d': False}
+                    def add(e):
+                        if not done['d'] and (e[1], e[2]) == (L.TEXTNS, 'p'):
+                            done['d'] = True
+                            return ('E', e[1], e[2], e[3], list(e[4]) + [('E', L.TEXTNS, u'span', [(L.TEXTNS, u'style-name', L.style_name(u))], [('T', u'in ' + nm)])
+                                                                         for u, nm in zip(users, names)])
+                        return e
+                    nb = _map_tree(body[0], add)
+                    if done['d']:
+                        kids = [('E', k[1], k[2], k[3], list(k[4]) + users) if k is au[0] else nb if k is body[0] else k for k in kids]
+            return ('E', t[1], t[2], t[3], kids)
+        return f
+    def named(sp, part):
+        ed = edit(part)
+        def f(n, t, pm):
+            pf = prefixes_for(t, pm)
+            t2 = ed(n, t)
+            for ns in L.namespaces_of(t2):
+                if ns not in pf and ns != L.XMLNS:
+                    pf[ns] = STD_PREFIX.get(ns) if STD_PREFIX.get(ns) and STD_PREFIX[ns] not in pf.values() else u'frgn%d' % len(pf)
+            return L.serialise(t2, pf)
+        return map_parts(sp, f, only=[part])
+    return named(named(spec, u'content.xml'), u'styles.xml')
+
+
+MUTATORS += [('long-root-tag', m_long_root_tag), ('long-root-tag-8k', m_long_root_tag_8k), ('long-root-tag-64k', m_long_root_tag_64k),
+             ('fonts-near-names', m_fonts_near_names)]
+
+
+def long_root_witness(rng, k, delta, kind, which):
+    """a minimal package around a HAND-WRITTEN content.xml (no serialiser) whose root start tag is 2^k + delta characters
+    long up to and including its '>': padding of the given kind first, then the declarations of office / text and of
+    all / some / none of the nine prefixes the loader asks for, at the very end of the tag"""
+    asked = list(REQUESTED_DECLS)
+    if which == 'some':
+        rng.shuffle(asked); asked = asked[:rng.randint(1, 8)]
+    elif which == 'none':
+        asked = []
+    tail = u''.join(u'%sxmlns:%s%s"%s"' % (rng.choice([u' ', u'\n', u'\n\t']), p, rng.choice([u'=', u'=', u' = ']), ns)
+                    for p, ns in [(u'office', L.OFFICENS), (u'text', L.TEXTNS)] + asked) + u' office:version="1.2">'
+    head = u'<office:document-content'
+    want = (1 << k) + delta - len(head) - len(tail)
+    pad = long_root_padding(kind, max(0, want - 80), rng) if want > 80 else u''
+    fill = want - len(pad)
+    if fill >= 14:
+        pad += u' filler="%s"' % (u'f' * (fill - 10))
+    elif fill > 0:
+        pad += u' ' * fill
+    uses = [p for p, _ in asked if p in (u'style', u'fo')]
+    auto = u'<office:automatic-styles><style:style style:name="P1" style:family="paragraph"/></office:automatic-styles>' if u'style' in uses else u''
+    text = (u'<?xml version="1.0" encoding="UTF-8"?>\n' + head + pad + tail + auto +
+            u'<office:body><office:text><text:p%s>behind a long start tag (%s, %s)</text:p></office:text></office:body></office:document-content>'
+            % (u' text:style-name="P1"' if auto else u'', kind, which))
+    return {'mimetype': MT[u'text'], 'manifest': [(u'/', MT[u'text']), (u'content.xml', u'text/xml')],
+            'members': [(u'content.xml', text.encode('utf-8'))]}
